@@ -320,18 +320,25 @@ pub(crate) mod verif_pc {
         s.local_connect_status[0].last_frame = newest;
         s.local_connect_status[1].last_frame = newest;
         let cks: u32 = kani::any();
-        save_cell(&s, due, cks);
+        // with sparse saving the due frame itself may have no saved state: the newest saved frame in [due, lc] is
+        // reported instead - under ITS OWN frame number (both peers label a checksum with the frame it belongs to)
+        let off: Frame = kani::any();
+        kani::assume(off >= 0 && off <= 2);
+        let saved = due + off;
+        save_cell(&s, saved, cks);
         s.check_checksum_send_interval();
         let q = vu::sendq_len(s.player_reg.remotes.get(&9).unwrap());
-        if due <= lc {
-            assert!(q == 1 && s.last_sent_checksum_frame == due);
-            assert!(s.local_checksum_history.get(&due) == Some(&(cks as u128)));
+        if due <= lc && saved <= lc {
+            assert!(q == 1 && s.last_sent_checksum_frame == saved, "C09: the report names the frame the checksum was computed for");
+            assert!(s.local_checksum_history.get(&saved) == Some(&(cks as u128)));
+            assert!(off == 0 || !s.local_checksum_history.contains_key(&due));
         } else {
             assert!(q == 0 && s.last_sent_checksum_frame == sent, "C09: never report a frame that is not final yet");
             assert!(s.local_checksum_history.is_empty());
         }
         kani::cover!(due > lc && due <= newest, "inputs for the frame arrived but it has not been re-simulated");
-        kani::cover!(due <= lc, "reported");
+        kani::cover!(due <= lc && off == 0, "reported");
+        kani::cover!(saved <= lc && off == 2, "sparse saving: a later saved frame is reported in place of the due one");
         core::mem::forget(s);
     }
 
